@@ -22,7 +22,11 @@ def jobs(ctx: Ctx, prop: str) -> List[Dict[str, Any]]:
     items: List[Dict[str, Any]] = []
     for k in range(ctx.pick(10, 60)):      # small graphs: every pair of links, optimum computed by TLC
         items.append({"id": f"small{base + k}", "kind": "routes", "net": "gen", "nodes": 5 + (k % 8), "seed": 31000 + base + k,
-                      "all_pairs": True, "n": 0, "snaps": 30, "weight": 2})
+                      "all_pairs": True, "n": 0, "snaps": 30, "weight": 2, "first_id": k % 2})      # junctions numbered from 0 or 1
+        if prop == "C13" and k % 3 == 0:
+            # the same kind of graph at a coarser simulation resolution (hexes of about 9 m), with a junction drawn as two
+            # nodes 4 m apart: links shorter than one cell.  C13 only: "fastest" has no meaning below the cell size
+            items.append(dict(items[-1], id=f"coarse{base + k}", seed=37000 + base + k, h3res=12, split_junction=True))
     for k in range(ctx.pick(6, 40)):       # medium graphs: sampled pairs by class, certificate
         items.append({"id": f"medium{base + k}", "kind": "routes", "net": "gen", "nodes": 20 + 8 * (k % 6), "seed": 32000 + base + k,
                       "n": ctx.pick(120, 400), "snaps": 40, "weight": 3})
